@@ -1,23 +1,14 @@
 import Sessions.Generated.Facts
 /-!
-# Theorems about the codec programs regenerated from the Go source (C16, C17)
+# Theorems about the JSON codec program regenerated from the Go source (C17)
 
-`Facts.gobEncodeProg`, `Facts.gobDecodeProg`, `Facts.jsonMarshalProg`, `Facts.jsonUnmarshalProg` are
-re-read from `GobEncode`/`GobDecode`/`MarshalJSON`/`UnmarshalJSON` on every run by /verif/extract.
-A field that is dropped, reordered on one side only, guarded differently, or converted differently
-makes these proofs fail on the next run.
+The program is re-read from the Go source on every run by /verif/extract (codec.go). A field that is dropped,
+reordered on one side only, guarded differently, or converted differently makes these proofs fail on the next run.
 -/
 namespace FactsCodec
 
-/-- the extractor recognised every statement of the four functions -/
-theorem nothing_unrecognised : Facts.unrecognised = [] := rfl
-
-/-- C16 at model level: decoding the gob encoding of ANY session into a fresh session restores every field
-(a nil data map comes back empty). -/
-theorem gob_roundtrip (s : Cd.S) :
-    Cd.dec Facts.gobDecodeProg (Cd.enc s Facts.gobEncodeProg) false {} = some (Cd.norm s) := by
-  obtain ⟨c, la, ip, ua, rf, user, data⟩ := s
-  cases user <;> simp [Facts.gobEncodeProg, Facts.gobDecodeProg, Cd.enc, Cd.dec, Cd.getF, Cd.setF, Cd.norm, Option.bind]
+/-- the extractor recognised every statement of `MarshalJSON` and `UnmarshalJSON` -/
+theorem json_recognised : Facts.unrecognisedMarshalJSON = [] ∧ Facts.unrecognisedUnmarshalJSON = [] := ⟨rfl, rfl⟩
 
 /-- C17 at model level: `UnmarshalJSON (MarshalJSON s)` succeeds for EVERY session — with or without user,
 with or without reference, with a nil or non-nil data map — and restores every field, instants up to the
